@@ -8,7 +8,7 @@ W="$1"; IDS="$2"; TIER="${3:-quick}"
 export GOFLAGS=-mod=mod GOPROXY=off GOSUMDB=off GOTOOLCHAIN=local
 S=/var/tmp/verif-evalmut-$$
 git -C /repo worktree add -q --detach "$S" HEAD || exit 2
-trap 'git -C /repo worktree remove --force "$S" >/dev/null 2>&1; git -C /repo checkout -q -- . 2>/dev/null' EXIT
+trap 'git -C /repo worktree remove --force "$S" >/dev/null 2>&1; git -C /repo checkout -q -- . 2>/dev/null; [ -n "${EVB:-}" ] && [ -d "$EVB" ] && { rm -rf /verif/evidence; mv "$EVB" /verif/evidence; }' EXIT
 DEMO=$(cd "$W" && git status --porcelain | grep '^??' | awk '{print $2}' | grep '_test.go$' | head -5)
 echo "== demo files: $DEMO"
 for d in $DEMO; do mkdir -p "$S/$(dirname $d)"; cp "$W/$d" "$S/$d"; done
@@ -22,9 +22,12 @@ echo "== suite with the change (must pass)"
 echo "== demo with the change (must fail)"
 (cd "$S" && go test -count=1 -timeout 180s -run 'TestMutDemo' $PKGS 2>&1 | tail -4)
 echo "== checks on /repo with the change applied"
+# the evidence files describe runs on the unchanged tree: keep them aside while a change is applied
+EVB=/var/tmp/verif-evalmut-evidence-$$; rm -rf "$EVB"; cp -a /verif/evidence "$EVB"
 git -C /repo apply "$W/patch.diff" || { echo "PATCH DOES NOT APPLY TO /repo"; exit 2; }
 for id in $(echo "$IDS" | tr ',' ' '); do
   (cd /verif && ./check "$id" "$TIER" 2>&1 | grep -v "^KNOWN" | grep "VIOLATION\|unit=\|$id $TIER:\|INTERNAL" | head -5 | cut -c1-420)
 done
 git -C /repo checkout -q -- .
+rm -rf /verif/evidence; mv "$EVB" /verif/evidence
 git -C /repo status --short | head -3
